@@ -305,11 +305,53 @@ def n8(ctx, F, rule="C10.N8"):
                   found={"unsound labels": bad[:4], "bounds moved before the label is computed": moved, "stored depth for depth 5": dfound})
 
 
+def n9(ctx, F, rule="C10.N9"):
+    """N9 a node gives up only when told to: in the two search functions that can be aborted (their result is an Option) the abort
+    value is returned only under the lowered stop flag, or handed on from a child that gave up (`?`).  An abort value returned for
+    any other reason (a table hit, an empty list) ends the whole iteration: the driver keeps the previous, shallower result and the
+    depth asked for is never searched."""
+    n = 0
+    for path in ("search::get_best_move_score", "search::get_best_move_entry"):
+        fn = F.fn(path)
+        if not fn.get("hir") or not str(fn.get("output", "")).startswith("std::option::Option<"):
+            continue
+        body = fn["hir"]["body"]
+        sym = hir.Sym(hir.Env(fn["hir"], F), F)
+        bad = []
+        for r, anc in hir.walk(body):
+            if r.get("k") != "Ret" or r.get("e") is None or any(str(a_.get("src", "")).startswith("TryDesugar") for a_ in anc):
+                continue
+            if sym(r["e"]) != ("variant", "std::prelude::v1::None"):
+                continue
+            n += 1
+            g = hir.guards_of(r, body, sym) or []
+            def lowered(x):
+                # the flag test with the polarity "not running": `load(..)` false, or `!load(..)` true
+                t_ = x[1]
+                neg = False
+                while isinstance(t_, tuple) and t_[:1] in (("not",),) or (isinstance(t_, tuple) and t_[:2] == ("un", "!")):
+                    t_ = t_[-1]
+                    neg = not neg
+                txt = hir.fmt(t_, 200)
+                return x[0] == "if" and "load(" in txt and ("continue_running" in txt or "Atomic" in txt) and (x[2] is False) != neg
+            told = any(lowered(x) for x in g)
+            if not told:
+                bad.append(hir.line(r))
+        tail = hir.strip(body).get("expr") if hir.strip(body).get("k") == "Block" else None
+        if tail is not None and sym(tail) == ("variant", "std::prelude::v1::None"):
+            bad.append(hir.line(tail))
+        ctx.check(rule, "abort-value-only-under-the-stop-flag:%s" % path.split("::")[-1], not bad, fn=path, file=fn["file"], line=bad[0] if bad else fn["span"][0],
+                  what="a search function returns its abort value where nobody asked it to stop: the iteration is thrown away and the "
+                       "driver answers from a shallower one", expected="return None only under !continue_running.load(..)", found=bad)
+    ctx.floor(rule, "explicit abort returns in the search functions", n, 1)
+
+
 def run_rest(ctx, F, ks):
     n4(ctx, F)
     n6(ctx, F)
     n7(ctx, F)
     n8(ctx, F)
+    n9(ctx, F)
     # N5: a mating move can stand anywhere in the ordered list and need not look tactical: every generated move must be searched
     # unless a cut-off ends the node (forward pruning hides quiet and discovered mates) - the census of loop exits of C09.B3
     from . import p09
